@@ -8,6 +8,8 @@ import Mathlib.Tactic.Ring
 import Mathlib.Tactic.Linarith
 import Mathlib.Tactic.Positivity
 
+import Mathlib.Tactic.LinearCombination
+import Mathlib.Tactic.Linarith
 namespace Spade
 
 /-! ### orientation -/
@@ -176,5 +178,105 @@ theorem triSeparated_disjoint (a b c u v w q : Pt) (h : TriSeparated a b c u v w
   · have := sepBy_excludes u v a b c q h ⟨p1, p2, p3⟩; omega
   · have := sepBy_excludes v w a b c q h ⟨p1, p2, p3⟩; omega
   · have := sepBy_excludes w u a b c q h ⟨p1, p2, p3⟩; omega
+
+/-- for a point on the supporting line of a non-degenerate segment: inside the bounding box of the
+end points ⇔ the projection factor lies in `[0, |b-a|²]` (stated on the differences
+`d = b - a`, `w = p - a`) -/
+theorem collinear_box_dot (dx dy wx wy : Int) (hne : dx ≠ 0 ∨ dy ≠ 0) (hcol : dx * wy = dy * wx) :
+    (min 0 dx ≤ wx ∧ wx ≤ max 0 dx ∧ min 0 dy ≤ wy ∧ wy ≤ max 0 dy) ↔
+      (0 ≤ wx * dx + wy * dy ∧ wx * dx + wy * dy ≤ dx * dx + dy * dy) := by
+  have kx : dx * (wx * dx + wy * dy) = wx * (dx * dx + dy * dy) := by linear_combination dy * hcol
+  have ky : dy * (wx * dx + wy * dy) = wy * (dx * dx + dy * dy) := by linear_combination (-dx) * hcol
+  have hL : 0 < dx * dx + dy * dy := by
+    rcases hne with h | h
+    · have : 0 < dx * dx := mul_self_pos.mpr h
+      nlinarith [mul_self_nonneg dy]
+    · have : 0 < dy * dy := mul_self_pos.mpr h
+      nlinarith [mul_self_nonneg dx]
+  generalize wx * dx + wy * dy = D at *
+  generalize dx * dx + dy * dy = L at *
+  constructor
+  · rintro ⟨h1, h2, h3, h4⟩
+    -- pick a non-zero direction component
+    rcases hne with h | h
+    · rcases lt_or_gt_of_ne h with hd | hd
+      · -- dx < 0: dx ≤ wx ≤ 0
+        rw [min_eq_right hd.le] at h1; rw [max_eq_left hd.le] at h2
+        constructor
+        · by_contra hc; replace hc := Int.not_le.mp hc
+          have : 0 < dx * D := mul_pos_of_neg_of_neg hd hc
+          have : wx * L ≤ 0 := mul_nonpos_of_nonpos_of_nonneg h2 hL.le
+          omega
+        · by_contra hc; replace hc := Int.not_le.mp hc
+          have h5 : dx * D < dx * L := mul_lt_mul_of_neg_left hc hd
+          have h6 : dx * L ≤ wx * L := mul_le_mul_of_nonneg_right h1 hL.le
+          omega
+      · rw [min_eq_left hd.le] at h1; rw [max_eq_right hd.le] at h2
+        constructor
+        · by_contra hc; replace hc := Int.not_le.mp hc
+          have : dx * D < 0 := mul_neg_of_pos_of_neg hd hc
+          have : 0 ≤ wx * L := mul_nonneg h1 hL.le
+          omega
+        · by_contra hc; replace hc := Int.not_le.mp hc
+          have h5 : dx * L < dx * D := mul_lt_mul_of_pos_left hc hd
+          have h6 : wx * L ≤ dx * L := mul_le_mul_of_nonneg_right h2 hL.le
+          omega
+    · rcases lt_or_gt_of_ne h with hd | hd
+      · rw [min_eq_right hd.le] at h3; rw [max_eq_left hd.le] at h4
+        constructor
+        · by_contra hc; replace hc := Int.not_le.mp hc
+          have : 0 < dy * D := mul_pos_of_neg_of_neg hd hc
+          have : wy * L ≤ 0 := mul_nonpos_of_nonpos_of_nonneg h4 hL.le
+          omega
+        · by_contra hc; replace hc := Int.not_le.mp hc
+          have h5 : dy * D < dy * L := mul_lt_mul_of_neg_left hc hd
+          have h6 : dy * L ≤ wy * L := mul_le_mul_of_nonneg_right h3 hL.le
+          omega
+      · rw [min_eq_left hd.le] at h3; rw [max_eq_right hd.le] at h4
+        constructor
+        · by_contra hc; replace hc := Int.not_le.mp hc
+          have : dy * D < 0 := mul_neg_of_pos_of_neg hd hc
+          have : 0 ≤ wy * L := mul_nonneg h3 hL.le
+          omega
+        · by_contra hc; replace hc := Int.not_le.mp hc
+          have h5 : dy * L < dy * D := mul_lt_mul_of_pos_left hc hd
+          have h6 : wy * L ≤ dy * L := mul_le_mul_of_nonneg_right h4 hL.le
+          omega
+  · rintro ⟨h1, h2⟩
+    -- each coordinate separately: sign of d·D = sign of w·L
+    have coord : ∀ (d w : Int), d * D = w * L → (min 0 d ≤ w ∧ w ≤ max 0 d) := by
+      intro d w hk
+      rcases lt_trichotomy d 0 with hd | hd | hd
+      · rw [min_eq_right hd.le, max_eq_left hd.le]
+        constructor
+        · by_contra hc; replace hc := Int.not_le.mp hc
+          have h5 : w * L < d * L := mul_lt_mul_of_pos_right hc hL
+          have h6 : d * L ≤ d * D := mul_le_mul_of_nonpos_left h2 hd.le
+          omega
+        · by_contra hc; replace hc := Int.not_le.mp hc
+          have h5 : 0 < w * L := mul_pos hc hL
+          have h6 : d * D ≤ 0 := mul_nonpos_of_nonpos_of_nonneg hd.le h1
+          omega
+      · subst hd
+        simp only [Int.zero_mul] at hk
+        have : w = 0 := by
+          rcases Int.mul_eq_zero.mp hk.symm with h | h
+          · exact h
+          · omega
+        subst this; simp
+      · rw [min_eq_left hd.le, max_eq_right hd.le]
+        constructor
+        · by_contra hc; replace hc := Int.not_le.mp hc
+          have h5 : w * L < 0 := mul_neg_of_neg_of_pos hc hL
+          have h6 : 0 ≤ d * D := mul_nonneg hd.le h1
+          omega
+        · by_contra hc; replace hc := Int.not_le.mp hc
+          have h5 : d * L < w * L := mul_lt_mul_of_pos_right hc hL
+          have h6 : d * D ≤ d * L := mul_le_mul_of_nonneg_left h2 hd.le
+          omega
+    have cx := coord dx wx kx
+    have cy := coord dy wy ky
+    exact ⟨cx.1, cx.2, cy.1, cy.2⟩
+
 
 end Spade
